@@ -33,11 +33,11 @@ func (r CodecRow) String() string {
 
 // CodecTable is what an encoder or decoder does.
 type CodecTable struct {
-	Rows    []CodecRow
-	ZeroPad [][2]int64        // encoder: [lo,hi) ranges written with constant 0 (with Cond in ZeroCond)
-	ZeroCond []string
+	Rows       []CodecRow
+	ZeroPad    [][2]int64 // encoder: [lo,hi) ranges written with constant 0 (with Cond in ZeroCond)
+	ZeroCond   []string
 	ZeroFields map[string]string // decoder: field -> cond under which it is set to constant 0
-	Problems []string
+	Problems   []string
 }
 
 // relField strips the root parameter name from an access path.
